@@ -25,6 +25,7 @@ def reset_stats():
 
 R = z3.RealSort()
 INT_BOUND = 12
+STRICT_SETITEM = True      # NumPy semantics; the torch library model relaxes it
 _UFS = {}
 
 
@@ -538,8 +539,10 @@ class SArr(np.ndarray):
         tgt = np.ndarray.__getitem__(self.view(np.ndarray), idx)
         scalar_target = not (isinstance(tgt, np.ndarray) and tgt.ndim > 0)
         if scalar_target and isinstance(v, (np.ndarray, list, tuple)) and np.ndim(v) > 0:
-            # NumPy >= 2 raises here for float arrays, also for sequences of length 1
-            raise ValueError('setting an array element with a sequence.')
+            # NumPy >= 2 raises here for float arrays, also for sequences of length 1; torch accepts length 1
+            if STRICT_SETITEM or np.size(v) != 1:
+                raise ValueError('setting an array element with a sequence.')
+            v = np.asarray(v, dtype=object).reshape(-1)[0]
         np.ndarray.__setitem__(self, idx, v)
 
     @property
